@@ -1,8 +1,10 @@
 #!/bin/bash
 # re-runs every seeded change against its property's quick check; prints one line each
-cd /verif
+V=${VERIF_DIR:-/verif}
+cd "$V"
+mkdir -p .cache
 for d in seeded/C*; do
   id=$(basename $d | cut -c1-3)
-  out=$(bin/seeded_check.sh /verif/$d/patch.diff $id 2>&1); rc=$?
+  out=$(bin/seeded_check.sh "$V/$d/patch.diff" $id 2>&1); rc=$?
   echo "$(basename $d) exit=$rc $(echo "$out" | grep -E "signature" | head -2 | tr '\n' ' ' | cut -c1-160)"
 done
